@@ -1,6 +1,6 @@
 """Property -> rules."""
 
-from . import rules_rta, rules_fp, rules_sib, rules_ros2, rules_total, controls, rules_models, witness
+from . import rules_rta, rules_fp, rules_sib, rules_ros2, rules_total, controls, rules_models, witness, rules_mono
 from .rta_model import ANALYSES
 
 FP = [p for p in ANALYSES if p.startswith('fixed_priority::')]
@@ -44,6 +44,10 @@ def rta_prop(paths, mode, prop, floor_instances, what):
             m = rules_rta.check_analysis(rep, crate, p, mode, prop)
             if m is not None:
                 models += 1
+        if mode == 'exact':
+            from . import rules_mono
+            rep.rule('LIM-NI', 'non-interference: the limit parameter reaches only the divergence-limit argument of search*')
+            rules_mono.check_all_limits(rep, crate, ['fixed_priority::', 'edf::', 'fifo::'])
         rep.floor('analysis entry points', models, len(paths))
         rep.floor('rule instances', len(rep.instances), floor_instances)
         return (f'Static analysis of the type-checked HIR of /repo (re-extracted by this run). Decides named '
@@ -147,6 +151,10 @@ def ros2_prop(which, mode, prop, floor):
             n += rules_ros2.check_bw(rep, rel, mode, 'rel')
             n += rules_ros2.check_bw(rep, dbg, mode, 'dbg')
             rules_ros2.check_kind_table_agreement(rep, dbg)
+        if mode == 'exact':
+            from . import rules_mono
+            rep.rule('LIM-NI', 'non-interference: the limit parameter reaches only the divergence-limit argument of search*')
+            rules_mono.check_all_limits(rep, dbg, ['ros2::'])
         rep.floor('analysis entry points', n, {'ecrts19': 4, 'rr': 1, 'bw': 2}.get(which[0], 0) if len(which) == 1 else sum({'ecrts19': 4, 'rr': 1, 'bw': 2}[w] for w in which))
         rep.floor('rule instances', len(rep.instances), floor)
         return (f'Static analysis of the type-checked HIR: the right-hand sides, result expressions and search spaces of the '
@@ -180,6 +188,11 @@ def c20(ctx, rep):
     l2, c2 = rules_total.check_term(rep, rel, 'rel')
     np_, nd = rules_total.check_profile(rep, dbg, rel)
     rules_total.check_debug_regions(rep, dbg)
+    # the debug-only cross-checks must agree with what they check, or debug builds panic where release builds return
+    rep.rule('FP-SIB', 'the debug-only linear scan agrees with the iterative search on range inclusivity, zero-demand result and Err payload')
+    rep.rule('BW-SIB', 'the debug-only brute-force step enumeration of bw::rta_subchain states Lemma 19 with the same shifts as the production search space, over 0..=max_offset')
+    rules_fp.check_brute_sibling(rep, dbg)
+    rules_total.check_bw_brute_force(rep, dbg)
     # the SITE discharge of `delta - 1` at the length->offset conversions assumes items of steps_iter >= 1: decide that here too
     rep.rule('STEP-NONZERO', 'no steps_iter yields 0 (cross-reference of the assumption used to discharge closed_from_time_zero call sites)')
     rules_models.check_step_nonzero(rep, dbg)
@@ -384,7 +397,71 @@ def c16(ctx, rep):
             'form. Does NOT decide numeric relations between the methods for given models.')
 
 
+class OnlyRules:
+    """forwards the instances of selected rules to a report (used to import LIM/ERR clauses into C17)"""
+
+    def __init__(self, rep, rules):
+        self.rep, self.rules = rep, rules
+        self.instances = []
+
+    def ok(self, rule, *a, **k):
+        if rule in self.rules:
+            self.rep.ok(rule, *a, **k)
+
+    def bad(self, rule, *a, **k):
+        if rule in self.rules or rule == 'ANCHOR':
+            self.rep.bad(rule, *a, **k)
+
+    def undecided_note(self, *a, **k):
+        pass
+
+    def floor(self, *a, **k):
+        pass
+
+    def rule(self, *a):
+        pass
+
+    def assume(self, *a):
+        pass
+
+
+def c17(ctx, rep):
+    dbg = ctx.crate('dbg')
+    for a in COMMON_ASSUMPTIONS[:3]:
+        rep.assume(a)
+    rep.assume('monotonicity of the *maximum over a pruned search space* additionally needs C06\'s losslessness, and monotonicity of '
+               'numeric least fixed points needs monotone right-hand sides: only the latter (per closure) is decided here')
+    rep.rule('MONO-X', 'variance typing: every closure that reaches the workload argument of search* is non-decreasing in its parameter')
+    rep.rule('MONO-DEMAND', 'every right-hand side is non-decreasing in every service_needed / number_arrivals / cost_of_jobs term')
+    rep.rule('MONO-PARAM', 'non-decreasing in blocking bounds, assumed response-time bounds, polling-point bounds')
+    rep.rule('MONO-SET', 'sums over task/callback collections have non-negative summands (adding interference never lowers a bound)')
+    rep.rule('LIM', 'the limit parameter reaches every search unmodified; with C08\'s non-interference an Ok never depends on it')
+    rep.rule('ERR', 'no Err is turned into Ok: every search result is propagated by `?` or handed to max_response_time')
+    n1 = rules_mono.check_rta(rep, dbg)
+    n2 = rules_mono.check_ros2(rep, dbg)
+    rep.rule('LIM-NI', 'non-interference: the limit parameter of every analysis reaches only the divergence-limit argument of search*')
+    n3 = rules_mono.check_all_limits(rep, dbg)
+    rep.floor('analyses checked for limit non-interference', n3, 15)
+    only = OnlyRules(rep, {'LIM', 'ERR', 'LIM-NI'})
+    for p in FP + EDF + FIFO:
+        rules_rta.check_analysis(only, dbg, p, 'safe', 'C17')
+    rules_ros2.check_ecrts19(only, dbg, 'safe')
+    rules_ros2.check_rr(only, dbg, 'safe')
+    rules_ros2.check_bw(only, dbg, 'safe', 'dbg')
+    rules_fp.check_search_with_offset(only, dbg)
+    rep.floor('right-hand sides typed (FP/EDF/FIFO)', n1, 17)
+    rep.floor('right-hand sides typed (ROS 2)', n2, 11)
+    rep.floor('rule instances', len(rep.instances), 150)
+    return ('Static variance typing of every closure that reaches fixed_point::search* in the nine dedicated-processor analyses '
+            'and the ROS 2 analyses: non-decreasing in the fixed-point variable, in every demand/arrival/cost term, in blocking, '
+            'assumed response-time and polling-point bounds; non-negative summands over task/callback sets; plus the LIM/ERR '
+            'clauses (limit only a threshold, errors never swallowed). Only a provably decreasing dependence is a violation; '
+            'undecided variances (e.g. WCET through C*n - (C-1), differences of costs) are listed as undecided. Does NOT '
+            'decide monotonicity of the numeric results themselves.')
+
+
 PROPS = {
+    'C17': c17,
     'C10': c10, 'C11': c11, 'C12': c12, 'C13': c13, 'C14': c14, 'C16': c16,
     'C20': c20,
     'C04': ros2_prop(['ecrts19'], 'safe', 'C04', 40),
